@@ -26,7 +26,9 @@ VDict(kvs) == Val("dict", 0, "", <<>>, kvs)
 
 (* characters chosen to break naive quoting: quote, double quote, backslash, newline, bracket, *)
 (* operator, comment sign, a letter and a non-ASCII letter                                     *)
-Alphabet == {"'", "\"", "\\", "\n", "a", "(", "+", "#", "é", "𝜇"}      \* the last one is outside the BMP (U+1D707)
+(* ... and a few whole words that mean something in Python source text (a value rendered to text and read back) *)
+Alphabet == {"'", "\"", "\\", "\n", "a", "(", "+", "#", "é", "𝜇",      \* 𝜇 is outside the BMP (U+1D707)
+             "nan", "inf", "None", "True"}
 
 (* the comparison form: strings compared by their join only *)
 RECURSIVE Norm(_)
@@ -63,5 +65,5 @@ Expected(entry, v) ==
       [] OTHER -> v     \* file name, tree name, declared default, captured variable
 
 (* entry points that put the value inside a lambda: anything not transportable is refused *)
-InLambda(entry) == entry \in {"default", "captured"}
+InLambda(entry) == entry \in {"default", "captured", "captured_global", "captured_modattr", "captured_clsattr"}
 =============================================================================
